@@ -6,4 +6,4 @@ From Inf Require Import base.ExtrBase model.GeomM.
 Extraction Language OCaml.
 Extraction "extract/c20_model.ml" extr_anchor pbc1 pbc_loop tieb
   distance_calc distancevel_calc position_calc velocity_calc dihedral_calc puckering_calc
-  calculate_order calculate_order_args path_reverse translate shift_images reverse_vel scale_sys rotate.
+  calculate_order calculate_order_args propagate_start propagate_frame propagate_frame0 path_reverse translate shift_images reverse_vel scale_sys rotate.
